@@ -7,12 +7,13 @@ States are linear: whoever holds a state may mutate it; every branch point forks
 """
 import ast
 import builtins as _pybuiltins
+import time
 import z3
 
 from .values import *          # noqa
 from . import loader
 
-FEAS_TIMEOUT_MS = 4000
+FEAS_TIMEOUT_MS = 1500
 
 
 class Frame:
@@ -122,6 +123,7 @@ class Engine:
         self.stats = {'feas_queries': 0, 'forks': 0}
         self._solver = None
         self.unroll_limit = self.options.get('unroll_limit', 64)
+        self.deadline = None
 
     # ------------------------------------------------------------------ utilities
     def fresh(self, sort, name='t'):
@@ -144,6 +146,8 @@ class Engine:
             elif extra is False or z3.is_false(extra):
                 return False
         self.stats['feas_queries'] += 1
+        if self.deadline and time.time() > self.deadline:
+            raise Unsupported('time budget of the unit exhausted during path exploration')
         s = z3.Solver()
         s.set('timeout', FEAS_TIMEOUT_MS)
         s.add(*st.pc)
@@ -369,6 +373,11 @@ class Engine:
         if isinstance(base, Ref):
             h = st.heap[base.oid]
             if h.kind == 'obj':
+                if attr in h.fields and isinstance(h.fields[attr], LazyUnion):
+                    for s1 in self.resolve_field(st, base, attr):
+                        for r in self.getattr(base, attr, s1, sink):
+                            yield r
+                    return
                 if attr in h.fields:
                     yield st, h.fields[attr]
                     return
@@ -452,6 +461,29 @@ class Engine:
             yield st, mv
             return
         raise Unsupported('attribute %s of %r' % (attr, base))
+
+    def resolve_field(self, st, ref, attr):
+        """fork on the alternatives of a lazily typed field; returns the list of states"""
+        lz = st.heap[ref.oid].fields[attr]
+        outs = []
+        for i, (tname, v) in enumerate(lz.alts):
+            s1 = st if i == len(lz.alts) - 1 else st.fork()
+            if v is ABSENT:
+                del s1.heap[ref.oid].fields[attr]
+            else:
+                s1.heap[ref.oid].fields[attr] = v
+            s1.trace.append(('%s.%s' % (lz.name, attr), str(tname)))
+            # the pre-state snapshot (old()) must see the same alternative
+            sn = s1.snap
+            if sn is not None and ref.oid in sn.heap and sn.heap[ref.oid].fields.get(attr) is lz:
+                sn = sn.fork()
+                if v is ABSENT:
+                    del sn.heap[ref.oid].fields[attr]
+                else:
+                    sn.heap[ref.oid].fields[attr] = v
+                s1.snap = sn
+            outs.append(s1)
+        return outs
 
     def class_attr(self, cinfo, attr, node):
         key = (cinfo.qualname, attr)
